@@ -678,7 +678,11 @@ def run_traced(cfg, max_batches=400):
 
 
 def _stat_bytes(s):
-    return b''.join(np.ascontiguousarray(getattr(s, k)).tobytes() for k in ('shell_n', 'shell_n_eff', 'shell_log_l', 'shell_log_v'))
+    # a shell that has never been sampled (no proposals yet: only the first bound of a run stopped before its first batch)
+    # has no estimator: its slots hold the placeholder nan until the first update turns them into the empty-shell
+    # convention (-inf volume); they are left out of the bit-for-bit comparison
+    keep = np.asarray(s.shell_n_sample) > 0
+    return b''.join(np.ascontiguousarray(np.asarray(getattr(s, k))[keep]).tobytes() for k in ('shell_n', 'shell_n_eff', 'shell_log_l', 'shell_log_v'))
 
 
 def finish_tables(tr, s):
